@@ -24,6 +24,12 @@
  * not to this property.  ASan and all other UBSan checks stay on. */
 #include "linepart.cpp"
 #include "array.cpp"
+/* mpt++/polyline.cpp (apply_data, polyline::set, the part iterator) and value_store.cpp (maxsize) for the same
+ * reason; layout::graph::transform3 (transform.cpp) is the REAL transformation class, taken from libmpt++.a */
+#include "polyline.cpp"
+#include "value_store.cpp"
+#include "layout.h"
+#include <sanitizer/asan_interface.h>
 
 using namespace mpt;
 
@@ -188,7 +194,202 @@ static void run_case(int ntok, char **tok)
 		free(d.v);
 	}
 }
+/* C18 harness, second part: mpt++/polyline.cpp driven through the real classes.
+ *
+ *   P <dim> | <dim> ... [& <dim> | ... ]   polyline::set(transform3, value stores) once per frame ('&' separates frames,
+ *                                          all frames on the SAME polyline object), then parts(), points() and the
+ *                                          part iterator (begin/end/++/ * /line()/points()) are read back
+ *   R <dim> | <dim> ...                    like P (one frame), then linepart::array::set(-1) on the parts and the records again
+ *   A <n> <dim> | <dim> ...                apply_data() without part records: n points, every point visible
+ *   W <v> ...                              linepart::set_cut / set_trim / cut() / trim() (values exact in float)
+ *
+ *   <dim> =  <min> <max> <v> ...   a store of doubles and the visible range of that dimension ("N N" = none)
+ *            X                     a store without data            Z   a store of doubles of length 0
+ *            F <v> ...             a store of floats (other content type: must be ignored)
+ *
+ * The transformation is layout::graph::transform3 with its default axes (dimension 0 -> x, 1 -> y, scale 1,
+ * offset 0, origin 0) and dimension 2 set to add to both x and y with factor 1 (default 1/sqrt 2), so that every
+ * coordinate of a drawn point is an exact sum of products for inputs on the small dyadic grid.
+ * The unused capacity behind the data of every store is poisoned for ASan: a read behind the data is a crash. */
+
+struct pl_open : public polyline
+{
+	linepart::array &vis() { return _vis; }
+};
+struct dimspec { int kind; struct range r; bool has; std::vector<double> v; };   /* kind: 0 doubles, 1 X, 2 Z, 3 F */
+
+static int parse_dims(int ntok, char **tok, int from, std::vector<dimspec> &out)
+{
+	int i = from;
+	while (i < ntok && strcmp(tok[i], "&")) {
+		dimspec d;
+		d.kind = 0; d.has = false; d.r.min = d.r.max = 0;
+		if (!strcmp(tok[i], "X")) { d.kind = 1; i++; }
+		else if (!strcmp(tok[i], "Z")) { d.kind = 2; i++; }
+		else if (!strcmp(tok[i], "F")) { d.kind = 3; i++; }
+		else if (i + 1 < ntok) {
+			d.has = get_range(tok + i, &d.r) != 0;
+			i += 2;
+		}
+		while (i < ntok && strcmp(tok[i], "|") && strcmp(tok[i], "&")) {
+			long c;
+			double x = one_value(tok[i], &c);
+			for (long k = 0; k < c; k++) d.v.push_back(x);
+			i++;
+		}
+		out.push_back(d);
+		if (i < ntok && !strcmp(tok[i], "|")) i++;
+	}
+	return i;
+}
+static void poison_tail(const value_store &st, bool on)
+{
+	const array::content *c = st.data();
+	if (!c || !c->left()) return;
+	char *end = static_cast<char *>(c->data()) + c->length();
+	if (on) ASAN_POISON_MEMORY_REGION(end, c->left());
+	else ASAN_UNPOISON_MEMORY_REGION(end, c->left());
+}
+static void fill_stores(const std::vector<dimspec> &dims, std::vector<value_store> &st)
+{
+	st.resize(dims.size());
+	for (size_t d = 0; d < dims.size(); d++) {
+		const dimspec &s = dims[d];
+		if (s.kind == 0 && s.v.size()) st[d].set(span<const double>(s.v.data(), s.v.size()));
+		else if (s.kind == 0 || s.kind == 2) st[d].reserve<double>(0);
+		else if (s.kind == 3) {
+			std::vector<float> f(s.v.begin(), s.v.end());
+			if (f.size()) st[d].set(span<const float>(f.data(), f.size()));
+			else st[d].reserve<float>(0);
+		}
+		poison_tail(st[d], true);
+	}
+}
+static void setup_transform(layout::graph::transform3 &tr, const std::vector<dimspec> &dims)
+{
+	tr._dim[2].to.x = 1;
+	tr._dim[2].to.y = 1;
+	for (size_t d = 0; d < dims.size() && d < 3; d++) {
+		if (!dims[d].has) continue;
+		tr._dim[d]._flags |= TransformLimit;
+		tr._dim[d].limit = dims[d].r;
+	}
+}
+static void add_points(std::string &s, const polyline::point *p, long n)
+{
+	char buf[96];
+	snprintf(buf, sizeof(buf), "n%ld", n);
+	s += buf;
+	for (long i = 0; i < n; ) {
+		long k = 1;
+		while (i + k < n && !memcmp(p + i, p + i + k, sizeof(*p))) k++;
+		if (k > 1) snprintf(buf, sizeof(buf), ",%a:%a*%ld", p[i].x, p[i].y, k);
+		else snprintf(buf, sizeof(buf), ",%a:%a", p[i].x, p[i].y);
+		s += buf;
+		i += k;
+	}
+}
+static void polyline_case(int ntok, char **tok, bool represet)
+{
+	pl_open pl;
+	int i = 2;
+	while (i < ntok) {
+		std::vector<dimspec> dims;
+		std::vector<value_store> st;
+		i = parse_dims(ntok, tok, i, dims);
+		if (i < ntok) i++;             /* skip '&' */
+		fill_stores(dims, st);
+		layout::graph::transform3 tr;
+		setup_transform(tr, dims);
+		bool ok = pl.set(tr, span<const value_store>(st.data(), st.size()));
+		vh_tok("%s", ok ? "set=1" : "set=0");
+		/* the part records, read from the polyline; totals from the library's own counters */
+		span<const linepart> ps = pl.parts();
+		std::string s;
+		long total = 0;
+		for (const linepart *p = ps.begin(); p && p != ps.end(); ++p) { add_part(s, *p, ","); total += p->raw; }
+		add_total(s, total);
+		char buf[96];
+		snprintf(buf, sizeof(buf), ",u%ld,r%ld", pl.vis().length_user(), pl.vis().length_raw());
+		s += buf;
+		vh_tok("%s", s.c_str());
+		/* the points */
+		span<const polyline::point> pts = pl.points();
+		s.clear();
+		add_points(s, pts.begin(), (long) pts.size());
+		vh_tok("%s", s.c_str());
+		/* the iterator: offsets of line() and points() of every part it yields */
+		s = "it";
+		long guard = (long) ps.size() + 2;
+		for (polyline::iterator it = pl.begin(); it != pl.end() && guard-- > 0; ++it) {
+			polyline::part pa = *it;
+			span<const polyline::point> l = pa.line(), q = pa.points();
+			snprintf(buf, sizeof(buf), ",L%ld+%lu/P%ld+%lu", (long) (l.begin() - pts.begin()), (unsigned long) l.size(),
+			         (long) (q.begin() - pts.begin()), (unsigned long) q.size());
+			s += buf;
+		}
+		if (guard <= 0) s += ",ENDLESS";
+		{
+			/* the end iterator: ++ stays, * yields an empty part */
+			polyline::iterator e = pl.end();
+			++e;
+			polyline::part pe = *e;
+			snprintf(buf, sizeof(buf), ",E%lu+%lu%s", (unsigned long) pe.line().size(), (unsigned long) pe.points().size(), e != pl.end() ? "!" : "");
+			s += buf;
+		}
+		vh_tok("%s", s.c_str());
+		for (size_t d = 0; d < st.size(); d++) poison_tail(st[d], false);
+	}
+	if (represet) {
+		/* linepart::array::set(-1): all points of the existing parts visible again, in fresh chunks */
+		bool ok = pl.vis().set(-1);
+		std::string s = ok ? "" : "refused,";
+		add_array(s, pl.vis(), ",");
+		vh_tok("%s", s.c_str());
+	}
+}
+static void apply_data_case(int ntok, char **tok)
+{
+	if (ntok < 3) return;
+	long n = atol(tok[2]);
+	std::vector<dimspec> dims;
+	std::vector<value_store> st;
+	parse_dims(ntok, tok, 3, dims);
+	fill_stores(dims, st);
+	layout::graph::transform3 tr;
+	setup_transform(tr, dims);
+	point<double> *dest = (point<double> *) malloc(n ? n * sizeof(*dest) : 1);
+	for (long k = 0; k < n; k++) dest[k] = point<double>(0, 0);
+	int proc = apply_data(dest, span<const linepart>(0, n), tr, span<const value_store>(st.data(), st.size()));
+	vh_tok("proc=%d", proc);
+	std::string s;
+	add_points(s, (const polyline::point *) dest, n);
+	vh_tok("%s", s.c_str());
+	free(dest);
+	for (size_t d = 0; d < st.size(); d++) poison_tail(st[d], false);
+}
+static void wrapper_case(int ntok, char **tok)
+{
+	vals d = read_values(ntok, tok, 2);
+	for (long i = 0; i < d.n; i++) {
+		linepart lp(0, 0);
+		lp._cut = 11; lp._trim = 13;
+		bool a = lp.set_cut((float) d.v[i]);
+		bool b = lp.set_trim((float) d.v[i]);
+		vh_tok("%d.%u.%d.%u:%a:%a", a, (unsigned) lp._cut, b, (unsigned) lp._trim, (double) lp.cut() * 65536.0, (double) lp.trim() * 65536.0);
+	}
+	free(d.v);
+}
+static void run_case_all(int ntok, char **tok)
+{
+	if (ntok < 2) return;
+	if (!strcmp(tok[1], "P")) polyline_case(ntok, tok, false);
+	else if (!strcmp(tok[1], "R")) polyline_case(ntok, tok, true);
+	else if (!strcmp(tok[1], "A")) apply_data_case(ntok, tok);
+	else if (!strcmp(tok[1], "W")) wrapper_case(ntok, tok);
+	else run_case(ntok, tok);
+}
 int main(int argc, char **argv)
 {
-	return vh_main(argc, argv, run_case);
+	return vh_main(argc, argv, run_case_all);
 }
